@@ -53,7 +53,7 @@ type JBehaviour struct {
 	Head     int            `json:"head"`
 }
 
-func (op JOp) tla(journal string) string {
+func (op JOp) tla(journal string, ival int) string {
 	open := 0
 	if journal == "branches" && op.K == "insert" {
 		open = 1 // CreateBranch opens the branches journal (a HEAD read that checks nothing) before its lookup
@@ -63,6 +63,8 @@ func (op JOp) tla(journal string) string {
 		return fmt.Sprintf(`[k |-> "rename", id |-> %d, new |-> %q, pre |-> %d, open |-> 0]`, op.ID, op.New, op.Pre)
 	case "rmid":
 		return fmt.Sprintf(`[k |-> "rmid", id |-> %d, pre |-> %d, open |-> 0]`, op.ID, op.Pre)
+	case "insert":
+		return fmt.Sprintf(`[k |-> "insert", key |-> %q, pre |-> %d, open |-> %d, ival |-> %d]`, op.Key, op.Pre, open, ival)
 	default:
 		return fmt.Sprintf(`[k |-> %q, key |-> %q, pre |-> %d, open |-> %d]`, op.K, op.Key, op.Pre, open)
 	}
@@ -81,7 +83,12 @@ func (s *JScenario) MCModule(mod string) string {
 	for i, ops := range s.Script {
 		var os []string
 		for _, o := range ops {
-			os = append(os, o.tla(s.Journal))
+			// a branch is created at main's initial commit (jrun: CreateBranch(pool, name, mainTip)); a pool gets a fresh id
+			ival := -1
+			if s.Journal == "branches" {
+				ival = s.Init["main"]
+			}
+			os = append(os, o.tla(s.Journal, ival))
 		}
 		fmt.Fprintf(&b, "%d :> <<%s>>", i+1, strings.Join(os, ", "))
 		if i < len(s.Script)-1 {
